@@ -390,6 +390,7 @@ soxr_t soxr_create(
 #endif
 
   if (q_spec && q_spec->e)  error = q_spec->e;
+  else if (io_spec && io_spec->e) error = io_spec->e;
   else if (io_spec && (io_spec->itype | io_spec->otype) >= SOXR_SPLIT * 2)
     error = "invalid io datatype(s)";
 
